@@ -59,10 +59,12 @@ pub fn https_uri(rng: &mut Rng) -> Vec<u8> {
 }
 
 pub fn blob(rng: &mut Rng, quick: bool) -> Vec<u8> {
+    // the thorough tier adds 64 KiB bodies, rarely (the request lines are hex)
+    let big = !quick && rng.chance(1, 30);
     let n = match rng.below(12) {
         0 => 0, 1 => 1, 2 => 255, 3 => 256, 4 => 257,
-        5 => if quick { 4095 } else { 65535 },
-        6 => if quick { 4096 } else { 65536 },
+        5 => if big { 65535 } else { 4095 },
+        6 => if big { 65536 } else { 4096 },
         _ => rng.below(600),
     };
     let fill = rng.below(4);
@@ -162,7 +164,11 @@ pub fn record(rng: &mut Rng, kind: &str, i: usize, quick: bool) -> Fields {
                 let n = *rng.pick(&[0u64, 1, 2, 40, 300]);
                 hex(&(0..n).map(|_| rng.next() as u8).collect::<Vec<_>>())
             });
-            let n = match (i / 4) % 5 { 0 => 0, 1 => 1, 2 => 2, 3 => rng.below(40), _ => if quick { 120 } else { 1500 } };
+            let n = match (i / 4) % 5 {
+                0 => 0, 1 => 1, 2 => 2, 3 => rng.below(40),
+                // beyond the 1024 pre-allocated entries only in the thorough tier, rarely
+                _ => if !quick && rng.chance(1, 20) { 1500 } else { 120 }
+            };
             let mut keys = std::collections::BTreeSet::new();
             while (keys.len() as u64) < n {
                 keys.insert(if rng.chance(1, 3) { u64_val(rng) } else { rng.below(5000) });
